@@ -108,6 +108,71 @@ fn defaults_per_call(acc: &mut Acc) {
     }
 }
 
+/// Types of the same name declared in different scopes of one module (local to two functions, local to two blocks) are
+/// different types with definitions of their own: each encodes by its own history, whichever was used first, and an
+/// enum constructor and a struct of one name do not meet either.
+fn same_named_local_types(acc: &mut Acc) {
+    use desert::BinaryCodec;
+    fn first(x: u8) -> Result<Vec<u8>, sbase::ErrClass> {
+        #[derive(BinaryCodec)]
+        struct Local {
+            a: u8,
+        }
+        desert::serialize_to_byte_vec(&Local { a: x }).map_err(|e| sbase::classify(&e))
+    }
+    fn second(x: u8) -> Result<Vec<u8>, sbase::ErrClass> {
+        #[derive(BinaryCodec)]
+        #[evolution(FieldAdded("b", 0u8), FieldMadeOptional("a"))]
+        struct Local {
+            a: Option<u8>,
+            b: u8,
+        }
+        desert::serialize_to_byte_vec(&Local { a: Some(x), b: 7 }).map_err(|e| sbase::classify(&e))
+    }
+    fn third(x: u8) -> Result<Vec<u8>, sbase::ErrClass> {
+        #[derive(BinaryCodec)]
+        enum Outer {
+            #[evolution(FieldAdded("c", 1u8))]
+            Local { a: u8, c: u8 },
+        }
+        let in_block = {
+            #[derive(BinaryCodec)]
+            #[evolution(FieldRemoved("gone"))]
+            struct Local {
+                a: u8,
+            }
+            desert::serialize_to_byte_vec(&Local { a: x }).map_err(|e| sbase::classify(&e))?
+        };
+        let mut out = desert::serialize_to_byte_vec(&Outer::Local { a: x, c: 9 }).map_err(|e| sbase::classify(&e))?;
+        out.extend_from_slice(&in_block);
+        Ok(out)
+    }
+    let want_first = vec![0u8, 5];
+    let want_second = vec![2u8, 4, 2, 1, 0, 1, 5, 7]; // version 2; chunk 0 = Some(5) (2 bytes), chunk 1 = 7 (1 byte), a made optional at position 0
+    let want_third = vec![0u8, 0, 1, 2, 2, 5, 9, 1, 2, 3, 8, b'g', b'o', b'n', b'e', 5]; // enum version, constructor 0, its record (version 1, two chunks of one byte); then the block's record (version 1, chunk of one byte, removed name)
+    acc.case(Some(0x5A3E));
+    let (r, _) = sbase::monitored(None, || {
+        // every order of first use within the process: a, b, c then c, b, a
+        let r1 = (first(5)?, second(5)?, third(5)?);
+        let r2 = (third(5)?, second(5)?, first(5)?);
+        Ok((r1, r2))
+    });
+    match r {
+        Call::Ok(((a1, b1, c1), (c2, b2, a2))) if a1 == want_first && a2 == want_first && b1 == want_second && b2 == want_second && c1 == want_third && c2 == want_third => {
+            acc.count("same_named_local_types_keep_their_own_definitions")
+        }
+        other => acc.violation(
+            "C18|same_named_local_types".to_string(),
+            J::obj()
+                .with("check", J::s("C18"))
+                .with("mode", J::s("call"))
+                .with("what", J::s("four types called Local in different scopes of one module, each with a history of its own"))
+                .with("expected", J::s(format!("{want_first:?} {want_second:?} {want_third:?}")))
+                .with("got", J::s(format!("{other:?}"))),
+        ),
+    }
+}
+
 /// An encode and a decode issued while the thread is being torn down (from the destructor of a client thread-local that
 /// was first touched before the thread's first use of the library): a call is a call, whenever it is made.
 fn calls_during_thread_teardown(acc: &mut Acc) {
@@ -162,6 +227,7 @@ pub fn c18(ctx: &mut Ctx, acc: &mut Acc) -> i32 {
     if ctx.shard == 0 {
         calls_during_thread_teardown(acc);
         defaults_per_call(acc);
+        same_named_local_types(acc);
     }
     let mode = ctx.extra.get("mode").cloned().unwrap_or_else(|| "storm".to_string());
     // the types of this process: derived declarations (fresh lazy statics each) first, then the catalogue
